@@ -78,7 +78,7 @@ func (c *Ctx) Paths(rule string, fn *ssa.Function) []*pathx.Path {
 		return ps
 	}
 	var ps []*pathx.Path
-	st, err := pathx.Enumerate(fn, pathx.Config{Loads: true, InlineLoops: true, Inline: c.expandInPlace}, func(p *pathx.Path) { ps = append(ps, p) })
+	st, err := pathx.Enumerate(fn, pathx.Config{Loads: true, InlineLoops: true, StableLoad: stableConfigLoad, Inline: c.expandInPlace}, func(p *pathx.Path) { ps = append(ps, p) })
 	if err != nil {
 		c.S.Unknown(rule, rule+"|paths|"+load.FuncName(fn), c.P.Pos(fn.Pos()), load.FuncName(fn), "path enumeration failed: "+err.Error())
 	}
@@ -418,4 +418,11 @@ func (c *Ctx) expandInPlace(caller, callee *ssa.Function) bool {
 		return true
 	}
 	return callee.Parent() != nil && load.TopLevel(callee) == load.TopLevel(caller)
+}
+
+// stableConfigLoad: the settings embedded in Client ("The applied settings are
+// read only") are not changed by any callee; OWN-10 checks that nothing in the
+// package stores to them after newClient.
+func stableConfigLoad(key string) bool {
+	return strings.HasPrefix(key, "Client.Config.") || strings.HasPrefix(key, "Config.")
 }
